@@ -180,10 +180,16 @@ static void k_cb(int elem) {         /* rows: stop items...  -> invoke {context,
 
 #define IT_CASE(S, T, MK, VAL) { CIterator_##S it; MK(&it, script); \
     for (int k = 0; k < nops; k++) { T out; memset(&out, 0xAB, sizeof out); int32_t rc = it.func(it.iter, &out); \
+      /* monitor: call k must deliver entry k of the source's script (v >= 0: an item, code 0; -1 or past the end: no item, non-zero code) */ \
+      { int64_t want = k < slen ? sc[k] : -1; char m[160]; \
+        if (want >= 0 && rc != 0) { snprintf(m, sizeof m, "iterator_call_%d:_the_source_yields_%lld_but_the_next_function_returned_%d_(0_means_an_item)", k, (long long)want, (int)rc); fail(m); } \
+        else if (want < 0 && rc == 0) { snprintf(m, sizeof m, "iterator_call_%d:_the_source_is_at_its_end_but_the_next_function_returned_0_(an_item)", k); fail(m); } \
+        else if (want >= 0 && (int64_t)(VAL) != want) { snprintf(m, sizeof m, "iterator_call_%d:_item_%lld_arrived_as_%lld", k, (long long)want, (long long)(VAL)); fail(m); } } \
       if (rc == 0) { row_put(1); row_put(VAL); } else { row_put(0); row_put(0); } } }
 static void k_it(int elem) {         /* rows: n script...  -> advance {iter, func} n times; 0 means an item was written */
   for (int r = 0; r < nrows; r++) {
     int nops = (int)rowbuf[r][0]; void *script = rt_mk_script(rowbuf[r] + 1, rowlen[r] - 1);
+    const int64_t *sc = rowbuf[r] + 1; int slen = (int)rowlen[r] - 1;
     row_begin();
     if (elem == 0) IT_CASE(u8, uint8_t, rt_mk_it_u8, out)
     else if (elem == 1) IT_CASE(u64, uint64_t, rt_mk_it_u64, (int64_t)out)
